@@ -20,7 +20,7 @@ from typing import Dict, List, Optional, Set, Tuple
 from sa import orderlint, registryx, sqlx, transp
 from sa.cfg import CFG, describe_path
 from sa.checks.c15 import report_issues
-from sa.core import AnalysisError, Finding, Program, Report, program, src, walk_no_nested
+from sa.core import AnalysisError, Finding, Program, Report, dotted, program, src, walk_no_nested
 
 TR = "vtlengine.duckdb_transpiler.Transpiler.SQLTranspiler"
 
@@ -522,7 +522,14 @@ def _symdiff_arms(P: Program, rep: Report, rule: str) -> None:
                "self._get_output_dataset": lambda: d1, "quote_name": lambda x: f'"{x}"', "registry.sql": lambda o, *a: registryx.registry_sql(REG, o, *a),
                "hasattr": lambda o, x: hasattr(o, x), "self._join_on_clause": lambda ids, a, b: " AND ".join(f'{a}."{i}" = {b}."{i}"' for i in ids),
                # the CTE builder only wraps the final SELECT in WITH ...: modelled as the identity on the final SELECT
-               "CTEBuilder": lambda: "CTEBuilder()", "cte.cte": lambda *a, **k: None, "cte.select": lambda q: q}
+               "CTEBuilder": lambda: "CTEBuilder()"}
+        # (the local names the handler gives its builder are read from the handler, not assumed)
+        for a_ in ast.walk(f.node):
+            if isinstance(a_, ast.Assign) and isinstance(a_.value, ast.Call) and (dotted(a_.value.func) or "").split(".")[-1] == "CTEBuilder":
+                for t_ in a_.targets:
+                    if isinstance(t_, ast.Name):
+                        ext[f"{t_.id}.cte"] = lambda *a, **k: None
+                        ext[f"{t_.id}.select"] = lambda q: q
         try:
             txt = " ".join(str(Interp(P, externals=ext).call(f, {"self": sm.MTranspiler(), "node": node, "op": "symdiff"})).split())
         except (Unmodelled, Raised) as e:
